@@ -65,6 +65,31 @@ func raceChild(kind string, seed uint64) {
 		}(g)
 	}
 	wg.Wait()
+	// matching outside any transport lock, as the handlers (canDispatch / canReceive) and concurrent history replays
+	// (dispatchHistory runs s.Match inside a read transaction, not under the transport lock) do: several goroutines,
+	// template selectors, one shared selector store — hits (recency updates) and misses (insertions, evictions)
+	small, _ := mercure.NewTopicSelectorStoreLRU(8, 2)
+	for _, st := range []*mercure.TopicSelectorStore{store, small} {
+		var subs []*mercure.LocalSubscriber
+		for i := 0; i < 3; i++ {
+			s := mercure.NewLocalSubscriber("", zapNop(), st)
+			s.SetTopics([]string{fmt.Sprintf("https://example.com/r%d/{id}", i), "https://example.com/{a}/{b}/x"}, []string{fmt.Sprintf("https://example.com/r%d/{id}", i)})
+			subs = append(subs, s)
+		}
+		stop2 := time.Now().Add(250 * time.Millisecond)
+		for g := 0; g < 6; g++ {
+			wg.Add(1)
+			r := rr.Fork()
+			go func() {
+				defer wg.Done()
+				for time.Now().Before(stop2) {
+					u := &mercure.Update{Topics: []string{fmt.Sprintf("https://example.com/r%d/%d", r.Intn(3), r.Intn(40))}, Private: r.Bool()}
+					h.Pick(r, subs).Match(u)
+				}
+			}()
+		}
+		wg.Wait()
+	}
 	tr.Close()
 }
 
@@ -121,6 +146,16 @@ func runRace(c *h.Ctx, r *h.Report) {
 				}
 				r.Violate(h.Violation{Key: "C14:data-race:" + first,
 					What:   fmt.Sprintf("the race detector reports unsynchronised memory access on the %s transport (frames: %s)", kind, strings.Join(top, " <- ")),
+					Replay: map[string]any{"family": "race", "kind": kind, "seed": seed, "report": txt}})
+			} else if i := strings.Index(string(out), "fatal error: "); err != nil && i >= 0 {
+				// e.g. "concurrent map writes": the runtime kills the process, nothing can recover it
+				msg := strings.SplitN(string(out)[i:], "\n", 2)[0]
+				txt := string(out)[i:]
+				if len(txt) > 3000 {
+					txt = txt[:3000]
+				}
+				r.Violate(h.Violation{Key: "C14:" + msg,
+					What:   fmt.Sprintf("the runtime aborted the process during a concurrent mix of operations on the %s transport: %s", kind, msg),
 					Replay: map[string]any{"family": "race", "kind": kind, "seed": seed, "report": txt}})
 			} else if err != nil {
 				r.Notes = append(r.Notes, fmt.Sprintf("race child %s/%d failed: %v: %s", kind, seed, err, clip(string(out))))
